@@ -193,6 +193,46 @@ def digest_run(which):
     print("DIGEST", hashlib.sha1(blob.encode()).hexdigest())
 
 
+def check_liveness_analyser():
+    """The SCC / longest-path analysis of C09 must flag an unfair arbiter even when the per-edge
+    next-owner oracle is not consulted: feed it the complete graph of a FIXED-PRIORITY two-initiator
+    arbiter (initiator 0 always wins) and of a correct round-robin one."""
+    from .checks import c09
+
+    class Fake:
+        def __init__(self, n, nxt):
+            self.n = n
+            self.edges = set()
+            for owner in range(n):
+                for mask in range(1 << n):
+                    for busy in (0, 1):
+                        released = not (busy and (mask >> owner) & 1)
+                        o2 = nxt(owner, mask) if released else owner
+                        self.edges.add((owner, o2, mask, released))
+
+        def owner_of(self, hw):
+            return hw
+
+    def fixed_priority(owner, mask):
+        others = [k for k in range(2) if (mask >> k) & 1 and k != owner]
+        return 0 if (mask & 1) else (others[0] if others else owner)
+
+    def round_robin(owner, mask):
+        for d in range(1, 3):
+            k = (owner + d) % 3
+            if (mask >> k) & 1:
+                return k
+        return owner
+
+    bad = c09.liveness(None, None, None, Fake(2, fixed_priority), None)
+    good = c09.liveness(None, None, None, Fake(3, round_robin), None)
+    if bad is None or good is not None:
+        print(f"SELFTEST FAIL: liveness analyser: fixed-priority -> {bad}, round-robin -> {good}")
+        return False
+    print("selftest: liveness analyser flags a fixed-priority arbiter (" + bad["signature"]["what"] + ") and accepts round-robin")
+    return True
+
+
 def main():
     if len(sys.argv) > 2 and sys.argv[1] == "--digest":
         digest_run(sys.argv[2])
@@ -206,6 +246,8 @@ def main():
     if s is None:
         return 1
     print(f"selftest: sequential/memory evaluator agrees with amaranth.sim on {s} cycles")
+    if not check_liveness_analyser():
+        return 1
     for which in ("N", "H"):
         outs = []
         for seed in ("0", "0"):
